@@ -181,6 +181,14 @@ MUTANTS = [
     ("gmres_tol_dropped", "bempp_cl/api/linalg/iterative_solvers.py", "x, info = scipy.sparse.linalg.gmres(A_op, b_vec, rtol=tol, restart=restart, maxiter=maxiter, callback=callback)", "x, info = scipy.sparse.linalg.gmres(A_op, b_vec, restart=restart, maxiter=maxiter, callback=callback)", 0, ["C15"]),
     ("lu_factor_path_rhs", "bempp_cl/api/linalg/direct_solvers.py", "        vec = b.projections(A.dual_to_range)\n", "        vec = b.coefficients\n", 0, ["C15"]),
     ("lu_blocked_spaces", "bempp_cl/api/linalg/direct_solvers.py", "return grid_function_list_from_coefficients(sol, A.domain_spaces)", "return grid_function_list_from_coefficients(sol, A.range_spaces)", 0, ["C15"]),
+    ("export_points_single", "bempp_cl/api/grid/io.py", "    points = grid.vertices.T\n", "    points = grid.vertices.T.astype(\"float32\")\n", 0, ["C19"]),
+    ("export_imag_sign", "bempp_cl/api/grid/io.py", "point_data = {\"real\": _np.real(data), \"imag\": _np.imag(data)}", "point_data = {\"real\": _np.real(data), \"imag\": -_np.imag(data)}", 0, ["C19"]),
+    ("export_domain_int8", "bempp_cl/api/grid/io.py", "cell_data[\"gmsh:physical\"] = grid.domain_indices.astype(\"int32\").reshape((1, -1))", "cell_data[\"gmsh:physical\"] = grid.domain_indices.astype(\"int8\").reshape((1, -1))", 0, ["C19"]),
+    ("import_elements_uint16", "bempp_cl/api/grid/io.py", "elements = mesh.cells_dict[\"triangle\"].T.astype(\"uint32\")", "elements = mesh.cells_dict[\"triangle\"].T.astype(\"uint16\")", 0, ["C19"]),
+    ("export_ascii_ignored", "bempp_cl/api/grid/io.py", "        binary=write_binary,", "        binary=True,", 0, ["C19"]),
+    ("export_transform_after_split", "bempp_cl/api/grid/io.py", "                cell_data[\"real\"] = _np.array([_np.real(data)])", "                cell_data[\"real\"] = _np.array([_np.abs(data)])", 0, ["C19"]),
+    ("import_domain_all_any", "bempp_cl/api/grid/io.py", "if domain_indices is None or _np.all(domain_indices == 0):", "if domain_indices is None or _np.any(domain_indices == 0):", 0, ["C19"]),
+    ("transform_log_abs_no_sqrt", "bempp_cl/api/grid/io.py", "res = _np.log(_np.sqrt(_np.sum(_np.abs(a) ** 2, axis=0, keepdims=True)))", "res = _np.log(_np.sum(_np.abs(a) ** 2, axis=0, keepdims=True))", 0, ["C19"]),
     ("export_element_source", "bempp_cl/api/grid/io.py", "data = _transform_array(grid_function.evaluate_on_element_centers(), transformation).T", "data = _transform_array(grid_function.evaluate_on_vertices(), transformation).T", 0, ["C19"]),
     ("transform_abs_of_sum", "bempp_cl/api/grid/io.py", "res = _np.sum(_np.abs(a) ** 2, axis=0, keepdims=True)", "res = _np.abs(_np.sum(a**2, axis=0, keepdims=True))", 0, ["C19"]),
     ("transform_imag_is_real", "bempp_cl/api/grid/io.py", "        res = _np.imag(a)", "        res = _np.real(a)", 0, ["C19"]),
